@@ -31,7 +31,7 @@ EXPLANATION = (
 )
 
 MANIFEST = {
-    "technique": "static analysis: enum exhaustiveness over discovered dispatch chains, per-branch convention extraction on canonical terms and cross-function agreement, store-target locality, path-term agreement of unlink vs save, freshness of returned buffers",
+    "technique": "static analysis: partial evaluation of every mode dispatcher under mode == M for the 8 modes (exhaustiveness and convention agreement independent of dispatch shape), store-target locality incl. views and whole-buffer prefill, finite-grid agreement of the two dtype tables, path-term agreement of unlink vs save, freshness of returned buffers, representation consistency of Image (who writes _pil / _array)",
     "text": "Decides exhaustiveness, agreement of the undefined-value conventions across the four mask operations for all eight modes, locality of buffer writes, agreement of the two dtype tables, and the persistence rules of write_image/read_image. Codec round trips are not decided.",
     "note": "Trusted: numpy putmask/maximum/isnan/fill semantics; PIL/astropy/numpy file I/O. Not decided: read-back equality per codec.",
 }
@@ -44,7 +44,7 @@ INTS = {"U8", "I16", "I32"}
 def run(run):
     run.explanation = EXPLANATION
     run.undecided_clauses += ["pixel-exact read-back per codec (PIL / astropy / numpy I/O)"]
-    for r, n in (("C15.R1", 6), ("C15.R2", 8), ("C15.R3", 2), ("C15.R4", 1), ("C15.R5", 3)):
+    for r, n in (("C15.R1", 6), ("C15.R2", 8), ("C15.R3", 2), ("C15.R4", 1), ("C15.R5", 3), ("C15.R6", 3)):
         run.floor(r, n)
     project = run.project
     members = _enum_members(project)
